@@ -231,7 +231,13 @@ impl NamespaceActor {
     }
 
     fn build_snapshot(&self, writer: Addr<SnapshotWriterActor>) -> anyhow::Result<()> {
-        for (key, value) in &self.data {
+        // in the order in which the list is served: load_snapshot_record rebuilds id_order_list
+        // from the order of the records
+        for key in &self.id_order_list {
+            let value = match self.data.get(key) {
+                Some(v) => v,
+                None => continue,
+            };
             if key.is_empty() || value.flag & NamespaceFromFlags::USER.bits() == 0 {
                 //非用户数据不记录
                 continue;
